@@ -830,5 +830,5 @@ func TestVerifC12(t *testing.T) {
 		sink.add(c.coq(), c, effects > len(c12Prefix(strings.SplitN(c.Stage, "/", 2)[0], true)) || len(c.Obs) > 3, c.Stage[:1]+string(key))
 	}
 	sink.stats.Notes = append(sink.stats.Notes, fmt.Sprintf("operations after which the server process was gone: %d", died))
-	sink.close("hostile federation peer (websocket server) against a real Hub in a child process: at every stage (before welcome, hello pending, after hello, after join, after a resumed reconnect) every type x member-presence pattern of ServerMessage / EventServerMessage (none, each single member, all; thorough: all subsets), list contents (join / leave lists; entries of update.users / update.changed with every combination of the members "sessionId" and "sessionid" missing / number / null / own id / other string, and actor members), contents of the raw members the code decodes itself, undecodable and binary frames, drops / resets / refusals between any two messages, client requests while disconnected; non-trivial = the case shows an effect beyond its stage prefix; distinct = distinct op lists")
+	sink.close("hostile federation peer (websocket server) against a real Hub in a child process: at every stage (before welcome, hello pending, after hello, after join, after a resumed reconnect) every type x member-presence pattern of ServerMessage / EventServerMessage (none, each single member, all; thorough: all subsets), list contents (join / leave lists; entries of update.users / update.changed with every combination of the members sessionId and sessionid missing / number / null / own id / other string, and actor members), contents of the raw members the code decodes itself, undecodable and binary frames, drops / resets / refusals between any two messages, client requests while disconnected; non-trivial = the case shows an effect beyond its stage prefix; distinct = distinct op lists")
 }
